@@ -4,13 +4,35 @@
    PRE-state: class issuer (create project / create batch), batch issuer (seal; mint and update batch
    metadata additionally need the batch open), class admin, project admin, basket curator, sell
    order owner, allow-listed creator when the allowlist is on, and the governance authority for every
-   parameter, allowlist, fee, credit type, bridge chain, allowed denom and fee pool message. *)
+   parameter, allowlist, fee, credit type, bridge chain, allowed denom and fee pool message.
+
+   "Such a message changes only the entity it names": C08_changes_only_the_named_entity gives, for every
+   role-gated update and governance message, the exact post-state as the pre-state with one row / one
+   field / one set element replaced (the match below is the definition Ledger/AuthFrame.only_named
+   written out; C08_only_named_is_this_statement proves the two are the same proposition).  The messages
+   that move credits or coins are framed by C03 (ownership), C08_admin_messages_leave_credit_tables,
+   C08_basket_messages_frame and C08_marketplace_messages_frame.
+
+   "A sealed batch can never be re-opened, minted into, or have its metadata changed":
+   C08_sealed_batch_row_is_final, over every history.
+
+   Resolver manager (data module): Data/DataInv.v, stated in Properties/C16.v (C16_manager_only) and restated below as C08_resolver_manager_only. *)
 From stdpp Require Import gmap.
-From Coq Require Import ZArith NArith List.
-Require Import Regen.Base.Bytes.
-Require Import Regen.Ledger.Types Regen.Ledger.Msgs Regen.Ledger.Orm Regen.Ledger.BaseMsgs
-               Regen.Ledger.Step Regen.Ledger.Auth.
-Import ListNotations.
+From RecordUpdate Require Import RecordSet.
+From Coq Require Import ZArith NArith List Bool.
+Require Import Regen.Base.Bytes Regen.Dec.Dec.
+Require Import Regen.Ledger.Types Regen.Ledger.Msgs Regen.Ledger.Orm Regen.Ledger.BaseMsgs Regen.Ledger.BasketMsgs
+               Regen.Ledger.MarketMsgs Regen.Ledger.Step Regen.Ledger.Auth Regen.Ledger.AuthFrame.
+Require Import Regen.Ledger.Amount Regen.Ledger.Inv Regen.Ledger.InvFrame Regen.Ledger.InvAdmin Regen.Ledger.InvBaseLib
+               Regen.Ledger.InvBase Regen.Ledger.InvBasket Regen.Ledger.InvMarketPrim Regen.Ledger.InvMarketLib Regen.Ledger.InvMarket
+               Regen.Ledger.InvAllLib Regen.Ledger.InvAllRun Regen.Ledger.InvAllGhost.
+Require Regen.Data.DataMsgs Regen.Data.DataInv.
+Import ListNotations RecordSetNotations.
+Local Open Scope Z_scope.
+
+(* ---------------------------------------------------------------------------------------------- *)
+(* roles                                                                                            *)
+(* ---------------------------------------------------------------------------------------------- *)
 
 Theorem C08_success_requires_role : forall e s m s' r evs,
   handle e s m = LOk (s', r, evs) -> required_role e s m.
@@ -26,3 +48,239 @@ Proof.
   inversion H; subst. eapply handle_requires_role. exact E.
 Qed.
 Print Assumptions C08_delivered_requires_role.
+
+(* the role table, spelled out (it is the definition of required_role) *)
+Theorem C08_required_role_is_this_table : forall e s m,
+  required_role e s m = 
+  (match m with
+  | MCreateClass admin _ _ _ _ => can_create_class s admin = true
+  | MCreateProject admin class_id _ _ _ => class_issuer_of_class s class_id admin
+  | MCreateBatch issuer project_id _ _ _ _ _ _ => class_issuer_of_project s project_id issuer
+  | MMintBatchCredits issuer denom _ _ => batch_issuer_is s denom issuer true
+  | MSealBatch issuer denom => batch_issuer_is s denom issuer false
+  | MUpdateBatchMetadata issuer denom _ => batch_issuer_is s denom issuer true
+  | MUpdateClassAdmin admin class_id _ | MUpdateClassIssuers admin class_id _ _ | MUpdateClassMetadata admin class_id _ =>
+      class_admin_is s class_id admin
+  | MUpdateProjectAdmin admin project_id _ | MUpdateProjectMetadata admin project_id _ => project_admin_is s project_id admin
+  | MBridgeReceive issuer class_id _ _ _ =>
+      (exists denom, batch_issuer_is s denom issuer true) \/
+      (exists project_id, class_issuer_of_project s project_id issuer) \/
+      class_issuer_of_class s class_id issuer
+  | MAddCreditType a _ _ _ _ | MSetClassCreatorAllowlist a _ | MAddClassCreator a _ | MRemoveClassCreator a _
+  | MUpdateClassFee a _ | MAddAllowedBridgeChain a _ | MRemoveAllowedBridgeChain a _
+  | MUpdateBasketFee a _ | MUpdateDateCriteria a _ _
+  | MAddAllowedDenom a _ _ _ | MRemoveAllowedDenom a _ | MGovSetFeeParams a _ | MGovSendFromFeePool a _ _ =>
+      a = e_authority e
+  | MUpdateCurator curator denom _ => exists id k, basket_by_denom s denom = Some (id, k) /\ bk_curator k = curator
+  | MCancelSellOrder seller id => exists o, sell_orders s !! id = Some o /\ so_seller o = seller
+  | MUpdateSellOrders seller updates =>
+      forall u, In u updates -> exists o, sell_orders s !! up_id u = Some o /\ so_seller o = seller
+  | MSend _ _ _ | MRetire _ _ _ _ | MCancel _ _ _ | MBridge _ _ _ _ | MBurnRegen _ _ _
+  | MBasketCreate _ _ _ _ _ _ _ _ | MPut _ _ _ | MTake _ _ _ _ _ _ _ | MSell _ _ | MBuyDirect _ _
+  | MBankSend _ _ _ | MUnimplemented _ => True
+  end).
+Proof. reflexivity. Qed.
+Print Assumptions C08_required_role_is_this_table.
+
+(* data module: data is registered to a resolver that has a manager only by that manager (a public resolver has none) *)
+Theorem C08_resolver_manager_only : forall H t s sg rid chs s' r url m,
+  DataMsgs.deliver H t s (DataMsgs.DRegisterResolver sg rid chs) = (s', DataMsgs.DOk r) ->
+  DataMsgs.get_resolver rid s = Some (url, Some m) -> sg = m.
+Proof. exact DataInv.C16_manager_only. Qed.
+Print Assumptions C08_resolver_manager_only.
+
+(* ---------------------------------------------------------------------------------------------- *)
+(* only the named entity changes                                                                    *)
+(* ---------------------------------------------------------------------------------------------- *)
+
+Theorem C08_changes_only_the_named_entity : forall e s m s' r evs,
+  handle e s m = LOk (s', r, evs) ->
+  match m with
+    | MUpdateClassAdmin _ class_id new_admin =>
+        exists k c, classes s !! k = Some c /\ cl_id c = class_id /\
+          s' = s <| classes := <[k := {| cl_id := cl_id c; cl_admin := new_admin;
+                                         cl_metadata := cl_metadata c; cl_ct := cl_ct c |}]> (classes s) |>
+    | MUpdateClassMetadata _ class_id new_metadata =>
+        exists k c, classes s !! k = Some c /\ cl_id c = class_id /\
+          s' = s <| classes := <[k := {| cl_id := cl_id c; cl_admin := cl_admin c;
+                                         cl_metadata := new_metadata; cl_ct := cl_ct c |}]> (classes s) |>
+    | MUpdateClassIssuers _ class_id add remove =>
+        exists k c, classes s !! k = Some c /\ cl_id c = class_id /\
+          s' = s <| class_issuers := issuers_after k add remove (class_issuers s) |>
+    | MUpdateProjectAdmin _ project_id new_admin =>
+        exists k p, projects s !! k = Some p /\ pj_id p = project_id /\
+          s' = s <| projects := <[k := {| pj_id := pj_id p; pj_admin := new_admin; pj_class_key := pj_class_key p;
+                                          pj_jurisdiction := pj_jurisdiction p; pj_metadata := pj_metadata p;
+                                          pj_reference_id := pj_reference_id p |}]> (projects s) |>
+    | MUpdateProjectMetadata _ project_id new_metadata =>
+        exists k p, projects s !! k = Some p /\ pj_id p = project_id /\
+          s' = s <| projects := <[k := {| pj_id := pj_id p; pj_admin := pj_admin p; pj_class_key := pj_class_key p;
+                                          pj_jurisdiction := pj_jurisdiction p; pj_metadata := new_metadata;
+                                          pj_reference_id := pj_reference_id p |}]> (projects s) |>
+    | MUpdateBatchMetadata _ denom new_metadata =>
+        exists k ba, batches s !! k = Some ba /\ ba_denom ba = denom /\
+          s' = s <| batches := <[k := {| ba_issuer := ba_issuer ba; ba_project_key := ba_project_key ba;
+                                         ba_denom := ba_denom ba; ba_metadata := new_metadata;
+                                         ba_start := ba_start ba; ba_end := ba_end ba;
+                                         ba_issuance := ba_issuance ba; ba_open := ba_open ba |}]> (batches s) |>
+    | MSealBatch _ denom =>
+        exists k ba, batches s !! k = Some ba /\ ba_denom ba = denom /\
+          ((ba_open ba = false /\ s' = s) \/
+           (ba_open ba = true /\
+            s' = s <| batches := <[k := {| ba_issuer := ba_issuer ba; ba_project_key := ba_project_key ba;
+                                           ba_denom := ba_denom ba; ba_metadata := ba_metadata ba;
+                                           ba_start := ba_start ba; ba_end := ba_end ba;
+                                           ba_issuance := ba_issuance ba; ba_open := false |}]> (batches s) |>))
+    | MAddCreditType _ abbrev name unit_ precision =>
+        credit_types s !! abbrev = None /\
+        s' = s <| credit_types := <[abbrev := {| ct_name := name; ct_unit := unit_; ct_precision := precision |}]>
+                                    (credit_types s) |>
+    | MSetClassCreatorAllowlist _ enabled => s' = s <| allowlist_enabled := enabled |>
+    | MAddClassCreator _ creator => s' = s <| allowed_creators := {[ creator ]} ∪ allowed_creators s |>
+    | MRemoveClassCreator _ creator => s' = s <| allowed_creators := allowed_creators s ∖ {[ creator ]} |>
+    | MUpdateClassFee _ fee => s' = s <| class_fee := normalise_fee fee |>
+    | MAddAllowedBridgeChain _ chain =>
+        s' = s <| allowed_bridge_chains := {[ to_lower chain ]} ∪ allowed_bridge_chains s |>
+    | MRemoveAllowedBridgeChain _ chain =>
+        s' = s <| allowed_bridge_chains := allowed_bridge_chains s ∖ {[ to_lower chain ]} |>
+    | MUpdateBasketFee _ fee => s' = s <| basket_fee := normalise_fee fee |>
+    | MUpdateCurator _ denom new_curator =>
+        exists id k, baskets s !! id = Some k /\ bk_denom k = denom /\
+          s' = s <| baskets := <[id := {| bk_denom := bk_denom k; bk_name := bk_name k;
+                                          bk_disable_auto_retire := bk_disable_auto_retire k; bk_ct := bk_ct k;
+                                          bk_criteria := bk_criteria k; bk_exponent := bk_exponent k;
+                                          bk_curator := new_curator |}]> (baskets s) |>
+    | MUpdateDateCriteria _ denom criteria =>
+        exists id k, baskets s !! id = Some k /\ bk_denom k = denom /\
+          s' = s <| baskets := <[id := {| bk_denom := bk_denom k; bk_name := bk_name k;
+                                          bk_disable_auto_retire := bk_disable_auto_retire k; bk_ct := bk_ct k;
+                                          bk_criteria := criteria; bk_exponent := bk_exponent k;
+                                          bk_curator := bk_curator k |}]> (baskets s) |>
+    | MAddAllowedDenom _ bank_denom display_denom exponent =>
+        allowed_denoms s !! bank_denom = None /\
+        s' = s <| allowed_denoms := <[bank_denom := (display_denom, exponent)]> (allowed_denoms s) |>
+    | MRemoveAllowedDenom _ denom => s' = s <| allowed_denoms := delete denom (allowed_denoms s) |>
+    | MGovSetFeeParams _ fees => exists fp, fees = Some fp /\ s' = s <| fee_params_ := Some fp |>
+    | MCancelSellOrder seller id =>
+        exists o q bal ne nt,
+          sell_orders s !! id = Some o /\ so_seller o = seller /\
+          parse (so_quantity o) = Ok q /\
+          balances s !! (seller, so_batch_key o) = Some bal /\
+          safe_sub_balance (bl_escrowed bal) q = Ok ne /\
+          safe_add_balance (bl_tradable bal) q = Ok nt /\
+          s' = s <| balances := <[(seller, so_batch_key o) :=
+                                    {| bl_tradable := dnorm nt; bl_retired := bl_retired bal;
+                                       bl_escrowed := dnorm ne |}]> (balances s) |>
+                 <| sell_orders := delete id (sell_orders s) |>
+    | _ => True
+    end.
+Proof. exact handle_changes_only_named. Qed.
+Print Assumptions C08_changes_only_the_named_entity.
+
+(* a message that fails leaves the state alone (transaction rule) *)
+Theorem C08_failed_message_changes_nothing : forall e s m,
+  (forall r evs, snd (deliver e s m) <> OOk r evs) -> fst (deliver e s m) = s.
+Proof.
+  intros e s m H. unfold deliver in *. destruct (validate_basic m); [|reflexivity].
+  destruct (handle e s m) as [[[s1 r1] evs1]|e1]; [|reflexivity].
+  exfalso. apply (H r1 evs1). reflexivity.
+Qed.
+Print Assumptions C08_failed_message_changes_nothing.
+
+(* UpdateClassIssuers: issuer pairs of every other class are untouched; the named class gets exactly add, loses exactly remove *)
+Theorem C08_update_class_issuers_touches_one_class : forall e s admin class_id add remove s' r evs,
+  handle e s (MUpdateClassIssuers admin class_id add remove) = LOk (s', r, evs) ->
+  exists k c, classes s !! k = Some c /\ cl_id c = class_id /\
+    (forall k' a, k' <> k -> ((k', a) ∈ class_issuers s' <-> (k', a) ∈ class_issuers s)) /\
+    (forall a, (k, a) ∈ class_issuers s' <-> In a add \/ ((k, a) ∈ class_issuers s /\ ~ In a remove)).
+Proof. exact update_class_issuers_other_classes. Qed.
+Print Assumptions C08_update_class_issuers_touches_one_class.
+
+(* CancelSellOrder: the order row goes, one balance row of the seller changes, nothing else *)
+Theorem C08_cancel_sell_order_touches_one_order : forall e s seller id s' r evs,
+  handle e s (MCancelSellOrder seller id) = LOk (s', r, evs) ->
+  exists o, sell_orders s !! id = Some o /\ so_seller o = seller /\
+    sell_orders s' = delete id (sell_orders s) /\
+    s' = s <| sell_orders := sell_orders s' |> <| balances := balances s' |> /\
+    (forall key, key <> (seller, so_batch_key o) -> balances s' !! key = balances s !! key).
+Proof. exact cancel_sell_order_other_rows. Qed.
+Print Assumptions C08_cancel_sell_order_touches_one_order.
+
+(* administrative and governance messages of the base module never touch balances, supplies, basket holdings,
+   sell orders, batches or baskets *)
+Theorem C08_admin_messages_leave_credit_tables : forall e s m s' r evs,
+  is_admin_msg m = true -> validate_basic m = true -> handle e s m = LOk (s', r, evs) ->
+  balances s' = balances s /\ supplies s' = supplies s /\ basket_balances s' = basket_balances s /\
+  sell_orders s' = sell_orders s /\ batches s' = batches s /\ baskets s' = baskets s.
+Proof.
+  intros e s m s' r evs Hm Hvb H. destruct (admin_credit_frame e s m s' r evs Hm Hvb H) as [A B C D E F _ _ _ _]. tauto.
+Qed.
+Print Assumptions C08_admin_messages_leave_credit_tables.
+
+(* basket messages never touch sell orders, escrow, batches, classes, projects or credit types *)
+Theorem C08_basket_messages_frame : forall e s m s' r evs,
+  is_basket_msg m = true -> Inv_core s -> validate_basic m = true ->
+  handle e s m = LOk (s', r, evs) ->
+  sell_orders s' = sell_orders s /\ sell_order_seq_id s' = sell_order_seq_id s /\
+  (forall a k, bl_escrowed (get_balance s' a k) = bl_escrowed (get_balance s a k)) /\
+  batches s' = batches s /\ batch_seq_id s' = batch_seq_id s /\
+  classes s' = classes s /\ projects s' = projects s /\ credit_types s' = credit_types s.
+Proof. exact basket_frames. Qed.
+Print Assumptions C08_basket_messages_frame.
+
+(* marketplace messages write only balances, supplies, sell orders, markets, allowed denoms, fee params and the bank *)
+Theorem C08_marketplace_messages_frame : forall e s m s' r evs,
+  is_market_msg m = true -> Inv_core s -> Inv_bound s -> validate_basic m = true ->
+  handle e s m = LOk (s', r, evs) ->
+  s' = s <| balances := balances s' |> <| supplies := supplies s' |> <| sell_orders := sell_orders s' |>
+         <| sell_order_seq_id := sell_order_seq_id s' |> <| allowed_denoms := allowed_denoms s' |>
+         <| markets := markets s' |> <| market_seq_id := market_seq_id s' |> <| fee_params_ := fee_params_ s' |>
+         <| bank := bank s' |> <| bank_supply := bank_supply s' |>.
+Proof. exact market_frame. Qed.
+Print Assumptions C08_marketplace_messages_frame.
+
+(* ---------------------------------------------------------------------------------------------- *)
+(* sealed batches                                                                                   *)
+(* ---------------------------------------------------------------------------------------------- *)
+
+(* credit-moving messages of the base module keep denom, dates, project, issuer and issuance date of every batch;
+   a sealed batch stays sealed and keeps its metadata *)
+Theorem C08_batch_rows_static : forall e s m s' r evs,
+  is_base_credit_msg m = true -> Inv_core s -> validate_basic m = true ->
+  handle e s m = LOk (s', r, evs) ->
+  forall k ba, batches s !! k = Some ba ->
+    exists ba', batches s' !! k = Some ba' /\
+      ba_denom ba' = ba_denom ba /\ ba_start ba' = ba_start ba /\ ba_end ba' = ba_end ba /\
+      ba_project_key ba' = ba_project_key ba /\ ba_issuer ba' = ba_issuer ba /\
+      ba_issuance ba' = ba_issuance ba /\ (ba_open ba = false -> ba_open ba' = false) /\
+      (ba_open ba = false -> ba_metadata ba' = ba_metadata ba).
+Proof. exact base_batch_static. Qed.
+Print Assumptions C08_batch_rows_static.
+
+(* over every history: once a batch is sealed its row never changes again (not re-opened, metadata, dates, issuer,
+   project and denom fixed) and nothing is minted into it (T = tradable + retired + cancelled of the supply row) *)
+Theorem C08_sealed_batch_row_is_final : forall g s1 s2 k ba su,
+  Inv_run g -> reaches g s1 -> reaches s1 s2 ->
+  batches s1 !! k = Some ba -> ba_open ba = false -> supplies s1 !! k = Some su ->
+  batches s2 !! k = Some ba /\ exists su', supplies s2 !! k = Some su' /\ T su' = T su.
+Proof. exact sealed_batch_row_is_final. Qed.
+Print Assumptions C08_sealed_batch_row_is_final.
+
+Theorem C08_T_is_the_issued_total : forall su,
+  T su = U (su_tradable su) + U (su_retired su) + U (su_cancelled su).
+Proof. reflexivity. Qed.
+Print Assumptions C08_T_is_the_issued_total.
+
+(* the hypotheses are satisfiable: a governance message is accepted from the authority and refused from anyone else;
+   a class admin update succeeds on a one-class state *)
+Example C08_nonvacuous_admin : 
+  validate_basic af_ex_msg = true /\
+  exists s' r evs, handle af_ex_env af_ex_state af_ex_msg = LOk (s', r, evs) /\
+                   only_named af_ex_env af_ex_msg af_ex_state s'.
+Proof. exact handle_changes_only_named_nonvacuous. Qed.
+Print Assumptions C08_nonvacuous_admin.
+Example C08_nonvacuous_gov : 
+  match handle af_ex_env af_ex_state (MSetClassCreatorAllowlist addr_gov true) with LOk _ => true | LErr _ => false end = true /\
+  match handle af_ex_env af_ex_state (MSetClassCreatorAllowlist 0%N true) with LOk _ => false | LErr _ => true end = true.
+Proof. exact gov_msg_nonvacuous. Qed.
+Print Assumptions C08_nonvacuous_gov.
